@@ -10999,7 +10999,8 @@ tsk_table_collection_check_integrity(
                    | TSK_CHECK_MIGRATION_ORDERING | TSK_CHECK_INDEXES;
     }
 
-    if (self->sequence_length <= 0) {
+    /* Written so that a NaN sequence length is rejected too */
+    if (!(self->sequence_length > 0)) {
         ret = tsk_trace_error(TSK_ERR_BAD_SEQUENCE_LENGTH);
         goto out;
     }
